@@ -105,6 +105,28 @@ M = [
  ('cim_always_first', MD, ".position(|value_full| value_full == value_subset)", ".position(|value_full| value_full == value_subset || true)", 1, ['C16']),
  ('mb_function_front', BM, "    model.basefunctions.push(function);\n    Ok(model)", "    model.basefunctions.insert(0, function);\n    Ok(model)", 1, ['C16']),
  ('mb_x_not_stored', BM, "model.x_vector = Some(x);", "let _ = x;", 1, ['C15']),
+ ('harmless_build_swap_checks', LB, """        if x_len == 0 || Y.is_empty() {
+            return Err(LevMarBuilderError::ZeroLengthVector);
+        }
+
+        if x_len != Y.nrows() {
+            return Err(LevMarBuilderError::InvalidLengthOfData {
+                x_length: x_len,
+                y_length: Y.nrows(),
+            });
+        }
+""", """        if x_len != Y.nrows() {
+            return Err(LevMarBuilderError::InvalidLengthOfData {
+                x_length: x_len,
+                y_length: Y.nrows(),
+            });
+        }
+
+        if x_len == 0 || Y.is_empty() {
+            return Err(LevMarBuilderError::ZeroLengthVector);
+        }
+""", 1, []),
+ ('harmless_cw_swap_count', MD, "    check_parameter_names(function_parameters)?;\n    check_parameter_count(function_parameters, &function)?;", "    check_parameter_count(function_parameters, &function)?;\n    check_parameter_names(function_parameters)?;", 1, []),
  ('harmless_mb_swap_checks', MD, "    check_parameter_names(model_parameters)?;\n    check_parameter_names(function_parameters)?;", "    check_parameter_names(function_parameters)?;\n    check_parameter_names(model_parameters)?;", 1, []),
  ('harmless_mb_rename_local', BM, "let expected = model.parameter_names.len();\n                if expected != initial_parameters.len() {\n                    Self::from(Err(ModelBuildError::IncorrectParameterCount {\n                        expected,", "let n_expected = model.parameter_names.len();\n                if n_expected != initial_parameters.len() {\n                    Self::from(Err(ModelBuildError::IncorrectParameterCount {\n                        expected: n_expected,", 1, []),
 ]
